@@ -30,7 +30,8 @@ META = {
     "order, focus, settings and notifications were judged after every operation; the property quantifies over histories of a "
     "deterministic in-memory component, so bounded exhaustive exploration with state de-duplication decides it for the bound",
     "rule": "a case is one transition (state, operation); non-trivial = the operation changed the store, the view, its order, "
-    "the focus or sent a notification; distinct = distinct (state, operation) pairs",
+    "the focus or sent a notification; distinct = distinct operation histories ending in such an operation (each expanded "
+    "state is reached by exactly one history)",
     "assumptions": [
         "a flow's fields are only changed by an `edit` operation that ends with update([flow]) - the view is judged only in "
         "states where it has been told about every change",
@@ -43,8 +44,11 @@ META = {
         "filter / order / direction are set through the command methods (set_filter_cmd, set_order, set_reversed), not "
         "through the view_* options; focus_follow stays off",
         "flows are built with live=False so that remove() does not kill them (kill rewrites flow.error)",
-        "scopes: the 'full' scope uses every operation at a smaller depth; the 'order' scope starts with two HTTP flows "
-        "already stored and uses only the operations that touch ordering, at a larger depth",
+        "scopes: the 'full' scope uses every operation (3 flows quick, 4 thorough) at depth 5; the 'order' scope starts with "
+        "two HTTP flows already stored and uses only the operations that touch ordering, at a larger depth",
+        "feature edited_out_of_sight (used only to tell the known stale-key finding from other ordering defects): a flow's "
+        "key for the selected order was changed by an edit while the flow was not shown under that order before and after "
+        "the update, and the key cached in settings differs from the fresh one",
     ],
 }
 
@@ -515,8 +519,8 @@ class Spec:
 
 def run(ctx):
     full = FULL_THOROUGH if ctx.thorough else FULL_QUICK
-    full_depth = ctx.pick(4, 5)
-    order_depth = ctx.pick(5, 6)
+    full_depth = 5
+    order_depth = ctx.pick(6, 8)
     ctx.bounds = {
         "filters": FILTERS, "orders": ORDERS, "editable_fields": {n: {k: list(v) for k, v in d.items()} for n, d in FIELDS.items()},
         "full": dict(full, depth=full_depth),
